@@ -3,7 +3,7 @@
 SPEC = {
     "level": "model_checking",
     "stages": [{"name": "main", "harness": "C04_api_wire.cpp", "config": "san", "gen": True,
-                "deadline": {"quick": 500, "thorough": 2400}}],
+                "deadline": {"quick": 1200, "thorough": 3000}}],
     "technique": "explicit-state BFS per layer class over the generated setter alphabet with a shadow getter model and a wire round trip in every state",
     "rule": ("one BFS per concrete layer class (47 classes); alphabet = every generated (setter, argument sample) of the class and its bases "
              "(typed option encoders with every sample of their generated argument domain: each struct field at its boundaries, vectors of length "
